@@ -142,7 +142,8 @@ def build_source(spec, env):
                 q = q.where(P.Field("k1") > 0)
         return q
     if kind == "cte":
-        return P.AliasedQuery(spec[1])
+        q = P.AliasedQuery(spec[1])
+        return q.as_(spec[2]) if len(spec) > 2 and spec[2] else q  # a reference to the CTE under an alias of its own
     if kind == "mk":
         # a table made by make_tables / Query.Tables: a name, or a (name, alias) pair
         from pypika_tortoise.queries import make_tables
